@@ -8,7 +8,7 @@ ID = 'C04'
 PROPS_FILE = 'theories/Props/C04.v'
 PROPS_MODULE = 'Props.C04'
 COQ_TARGETS = ['theories/Extract/ExtractSyntax.vo']
-REQUIRED_THEOREMS = ['C04_serialize_total', 'C04_indent_balanced', 'C04_output_extends', 'C04_junk_verbatim', 'C04_junk_skipped', 'C04_comment_lines', 'C04_roundtrip_simple_partial', 'C04_fixpoint_simple_partial', 'C04_simple_are_parser_outputs', 'C04_roundtrip_multiline_partial', 'C04_fixpoint_multiline_partial', 'C04_multiline_output', 'C04_multiline_contains_parser_outputs', 'C04_simple_in_multiline', 'C04_roundtrip_select_partial', 'C04_fixpoint_select_partial', 'C04_select_output', 'C04_select_contains_parser_outputs', 'C04_multiline_in_select', 'C04_roundtrip_wellformed_sources_partial', 'C04_roundtrip_layout_sources_partial', 'C04_roundtrip_nested_partial', 'C04_fixpoint_nested_partial', 'C04_nested_output', 'C04_nested_contains_parser_outputs']
+REQUIRED_THEOREMS = ['C04_serialize_total', 'C04_indent_balanced', 'C04_output_extends', 'C04_junk_verbatim', 'C04_junk_skipped', 'C04_comment_lines', 'C04_roundtrip_simple_partial', 'C04_fixpoint_simple_partial', 'C04_simple_are_parser_outputs', 'C04_roundtrip_multiline_partial', 'C04_fixpoint_multiline_partial', 'C04_multiline_output', 'C04_multiline_contains_parser_outputs', 'C04_simple_in_multiline', 'C04_roundtrip_select_partial', 'C04_fixpoint_select_partial', 'C04_select_output', 'C04_select_contains_parser_outputs', 'C04_multiline_in_select', 'C04_roundtrip_wellformed_sources_partial', 'C04_roundtrip_layout_sources_partial', 'C04_parser_output_shape', 'C04_roundtrip_parser_outputs_partial', 'C04_roundtrip_covered_partial', 'C04_roundtrip_nested_partial', 'C04_fixpoint_nested_partial', 'C04_nested_output', 'C04_nested_contains_parser_outputs']
 MODEL = 'syn'
 HARNESS_BINS = ['syn_run']
 ANCHORS = ['fluent-syntax/src/serializer.rs', 'fluent-syntax/src/parser/pattern.rs', 'fluent-syntax/src/parser/comment.rs']
@@ -172,22 +172,48 @@ def classify(case, why, out=''):
     return None
 
 
+COVERED = {'parser_outputs_under_theorem_C04_roundtrip_covered_partial': 0, 'parser_outputs_outside_it': 0, 'outside_it_although_no_junk': 0}
+OUTSIDE_SAMPLES = []
+
+
+def project(out):
+    """the model's roundtrip answer ends with (covered b): whether the parsed tree satisfies the executable premise of the round-trip
+    theorem (Syntax/Coverage.v c04_covered). Counted for the evidence, removed before comparing with the implementation."""
+    for b in ('true', 'false'):
+        suf = ' (covered %s))' % b
+        if out.endswith(suf):
+            COVERED['parser_outputs_under_theorem_C04_roundtrip_covered_partial' if b == 'true' else 'parser_outputs_outside_it'] += 1
+            if b == 'false' and '(junk ' not in out:
+                COVERED['outside_it_although_no_junk'] += 1
+                if len(OUTSIDE_SAMPLES) < 12 and len(out) < 400:
+                    OUTSIDE_SAMPLES.append(out)
+            return out[:-len(suf)] + ')'
+    return out
+
+
+def extra_coverage():
+    return {'proof_coverage_of_generated_inputs': dict(COVERED), 'samples_outside_theorem_without_junk': OUTSIDE_SAMPLES[:12]}
+
+
 def nontrivial(case, out):
     return out if ('(msg ' in out or '(term ' in out) else None
 
 
 PARTIAL = ('serializer totality, balanced indentation, buffer growth, Junk and comment emission are proved for ALL trees. Round trip AND fixed '
-           'point (both options) are proved for the parser output of EVERY layout of EVERY well-formed tree that does not end in a stand-alone comment with an '
-           'empty last line (last_comment_ok; C04_roundtrip_wellformed_sources_partial). Not covered by the proof: parser outputs of sources that are not a layout of a '
-           'well-formed tree (sources with errors/Junk, lone CRs) — decided there by the round-trip oracle on the implementation — and the '
-           'shape of D7. The unrestricted statements are refuted on the current tree by D7 (theorems ..._refuted_by_D7).')
+           'point (both options) are proved (C04_roundtrip_parser_outputs_partial) for EVERY tree the parser can return whose joined tree is '
+           'well-formed in the sense of Render.v (wf_resource, wf_utf8_resource: decidable premises on the tree), using the shape theorem '
+           'C04_parser_output_shape (no hypothesis on the input: no empty patterns or text elements, no braces in text, LF only last, trimmed '
+           'tail, one default per select, ...). In particular for the parser output of EVERY layout of EVERY well-formed tree '
+           '(C04_roundtrip_layout_sources_partial, C04_roundtrip_wellformed_sources_partial). Outside the proof, decided by the round-trip '
+           'oracle on the implementation: trees with Junk, zero-line comments (D7), blank pattern lines that keep spaces beyond the common '
+           'indent, lone CRs in text, the leading spaces of D30. The unrestricted statements are refuted on the current tree by D7.')
 
 MANIFEST = {
     'text': 'Rocq theorems about the Gallina transliteration of the serializer (SerializerModel.v): never panics and restores the indent '
             'level for ALL trees; Junk verbatim / skipped; comment line format; the exact canonical text; round trip and fixed point '
-            'PROVED for the parser output of every layout of every well-formed tree with last_comment_ok (any nesting of selects, '
-            'placeables and call arguments, multi-line values), composed with the parser model; every other parser output (sources '
-            'with Junk) is checked by running parse/serialize/parse/serialize on the extracted model and on the real crate and '
+            'PROVED for every parser output whose joined tree is well-formed (any nesting of selects, placeables and call arguments, multi-line '
+            'values; shape of ALL parser outputs proved), composed with the parser model; every other parser output (sources '
+            'with Junk, D7, D30, lone CRs) is checked by running parse/serialize/parse/serialize on the extracted model and on the real crate and '
             'comparing both trees and both texts.',
     'note': 'PARTIAL proof of the round trip (fragment). Trusted: as C01 plus String operations as list operations. Known findings D7, D30.',
     'technique': 'Rocq proof (writer invariants for all trees; print/parse round trip for a fragment) + differential correspondence check + round-trip oracle',
